@@ -59,6 +59,8 @@ type Inst struct {
 	partition string
 	lastSnap  string
 	apiBusy   atomic.Int32
+	lockHeld  atomic.Int32
+	gate      chan struct{}
 	group     string
 }
 
@@ -71,25 +73,27 @@ type prog struct {
 }
 
 type World struct {
-	sc      *Scenario
-	tr      *Tracer
-	st      *Store
-	rng     *rand.Rand
-	mu      sync.Mutex
-	items   []*Item
-	nextID  int
-	counts  map[string]int
-	insts   map[string]*Inst
-	order   []string
-	progs   []*prog
-	whens   []*Step
-	fired   map[*Step]bool
-	closing bool
-	rootCtx context.Context
-	cancel  context.CancelFunc
-	expAt   map[string]int64 // key -> rev*0+time of scheduled expiry notification
-	expRev  map[string]uint64
-	beat    *atomic.Int64
+	sc          *Scenario
+	tr          *Tracer
+	st          *Store
+	rng         *rand.Rand
+	mu          sync.Mutex
+	items       []*Item
+	nextID      int
+	counts      map[string]int
+	insts       map[string]*Inst
+	order       []string
+	progs       []*prog
+	whens       []*Step
+	fired       map[*Step]bool
+	closing     bool
+	strict      bool
+	notFollowed int
+	rootCtx     context.Context
+	cancel      context.CancelFunc
+	expAt       map[string]int64 // key -> rev*0+time of scheduled expiry notification
+	expRev      map[string]uint64
+	beat        *atomic.Int64
 }
 
 // ---------- handle: what the election sees as its KeyValue ----------
@@ -330,6 +334,10 @@ func (w *World) wlat() int64 {
 // decide fixes latency and fault of a freshly issued item (caller holds w.mu).
 func (w *World) decide(it *Item, now int64) {
 	it.dueUs = now + w.lat()
+	if w.strict && !w.closing {
+		it.held = true
+		return
+	}
 	if w.closing {
 		it.fault = "fail:connclosed"
 		it.dueUs = now
@@ -386,6 +394,7 @@ func (m metrics) SetConnectionStatus(v float64, _ prometheus.Labels) {
 }
 func (m metrics) IncTransitions(l prometheus.Labels) {
 	m.w.tr.Emit(m.in.cfg.ID, "m_trans", KV{"from": l["from_state"], "to": l["to_state"]})
+
 }
 func (m metrics) IncFailures(l prometheus.Labels) {
 	m.w.tr.Emit(m.in.cfg.ID, "m_fail", KV{"type": l["error_type"]})
@@ -401,6 +410,19 @@ func (m metrics) ObserveHeartbeatDuration(_ time.Duration, l prometheus.Labels) 
 }
 func (m metrics) ObserveLeaderDuration(d time.Duration, _ prometheus.Labels) {
 	m.w.tr.Emit(m.in.cfg.ID, "m_ldur", KV{"us": int64(d / time.Microsecond)})
+	// in Stop / StopWithContext this callback runs inside the critical section, before the leader flag is cleared
+	if m.in.cfg.GateStopMetric && m.in.apiBusy.Load() > 0 && !m.w.closing {
+		// a scheduler gate: the election's mutex is held by our caller; the driver releases the gate with a
+		// release_gate step (and must not call Status() meanwhile)
+		ch := make(chan struct{})
+		m.w.mu.Lock()
+		m.in.gate = ch
+		m.w.mu.Unlock()
+		m.in.lockHeld.Add(1)
+		m.w.tr.Emit(m.in.cfg.ID, "gate", KV{"where": "stop_leader_duration"})
+		<-ch
+		m.in.lockHeld.Add(-1)
+	}
 }
 
 type health struct {
@@ -558,6 +580,9 @@ func (w *World) wait() {
 func (w *World) snapAll(force bool) {
 	for _, id := range w.order {
 		in := w.insts[id]
+		if in.lockHeld.Load() > 0 {
+			continue
+		}
 		st := in.el.Status()
 		tok := w.tr.Tok(in.el.Token())
 		kv := KV{"leader": in.el.IsLeader(), "sleader": st.IsLeader, "state": st.State, "lid": in.el.LeaderID(), "slid": st.LeaderID,
@@ -580,7 +605,16 @@ func (w *World) Run() (leaked int) {
 		return 0
 	}
 	end := w.sc.EndUs
+	if len(w.sc.Script) > 0 {
+		w.runScript()
+	}
 	for iter := 0; ; iter++ {
+		if w.gateHeld() {
+			// a library goroutine is parked inside a critical section by a scheduler gate: other library goroutines may be
+			// blocked on that mutex (not a durable block), so synctest.Wait must not be called until the gate is released
+			w.runGateRelease()
+			continue
+		}
 		w.wait()
 		w.snapAll(false)
 		now := w.tr.NowUs()
@@ -950,6 +984,9 @@ func (w *World) enqueue(wt *watcher, ev wev, nowUs int64) {
 			}
 		}
 	}
+	if w.strict && !w.closing {
+		it.held = true
+	}
 	// FIFO: never earlier than the previous delivery of this watcher
 	if n := len(wt.queue); n > 0 && wt.queue[n-1].dueUs > it.dueUs {
 		it.dueUs = wt.queue[n-1].dueUs
@@ -1165,6 +1202,14 @@ func (w *World) exec(s *Step, now int64) {
 		}
 		w.write(key, nil, "outside", true, time.Now())
 		w.tr.Emit("env", "out_del", KV{"key": key, "rev": int64(w.st.seq)})
+	case "release_gate":
+		w.mu.Lock()
+		ch := in.gate
+		in.gate = nil
+		w.mu.Unlock()
+		if ch != nil {
+			close(ch)
+		}
 	case "set_health":
 		w.mu.Lock()
 		in.cfg.HealthRest = s.Cls
@@ -1225,6 +1270,12 @@ func (w *World) cleanup() int {
 	w.mu.Unlock()
 	w.progs = nil
 	w.whens = nil
+	for _, in := range w.insts {
+		if in.gate != nil {
+			close(in.gate)
+			in.gate = nil
+		}
+	}
 	for _, id := range w.order {
 		in := w.insts[id]
 		go func() { _ = in.el.Stop() }()
@@ -1308,4 +1359,178 @@ func (wt *watcher) Pending() []wev {
 		out = append(out, it.ev)
 	}
 	return out
+}
+
+// ---- strict mode: a script (usually a TLC behaviour) decides every release ----
+
+func (w *World) findItem(st *SStep) *Item {
+	w.mu.Lock()
+	defer w.mu.Unlock()
+	var best *Item
+	for _, it := range w.items {
+		if it.inst != st.I {
+			continue
+		}
+		switch st.Do {
+		case "deliver", "drop":
+			if it.kind != "deliver" || len(it.wt.queue) == 0 || it.wt.queue[0] != it || it.wt.stopped {
+				continue
+			}
+		default:
+			if it.kind == "deliver" || it.kind != st.Kind {
+				continue
+			}
+			wantPhase := "pre"
+			if st.Do == "respond" || st.Do == "lose_ack" {
+				wantPhase = "post"
+			}
+			if it.phase != wantPhase {
+				continue
+			}
+			if st.Src != "" && it.src != st.Src {
+				continue
+			}
+			if st.Tok != 0 && (it.kind == "create" || it.kind == "update") {
+				kv := KV{}
+				w.describeVal(kv, it.val, true)
+				if kv["tok"] != st.Tok {
+					continue
+				}
+			}
+		}
+		if best == nil || it.id < best.id {
+			best = it
+		}
+	}
+	return best
+}
+
+func (w *World) sleepEventOr(us int64) {
+	if us <= 0 {
+		us = 1
+	}
+	tm := time.NewTimer(time.Duration(us) * time.Microsecond)
+	select {
+	case <-w.tr.event:
+		tm.Stop()
+	case <-tm.C:
+	}
+}
+
+func (w *World) runScript() {
+	w.strict = true
+	// operations issued before the script started (none normally)
+	for si := range w.sc.Script {
+		st := &w.sc.Script[si]
+		w.wait()
+		w.snapAll(false)
+		now := w.tr.NowUs()
+		w.stepExpiry(now)
+		switch st.Do {
+		case "advance":
+			for w.tr.NowUs() < st.ToUs {
+				w.sleepEventOr(st.ToUs - w.tr.NowUs())
+				w.wait()
+				w.stepExpiry(w.tr.NowUs())
+				w.snapAll(false)
+			}
+		case "apply", "respond", "fail", "lose_ack", "deliver", "drop":
+			var it *Item
+			waited := int64(0)
+			for {
+				if it = w.findItem(st); it != nil || waited > 1_500_000 {
+					break
+				}
+				w.sleepEventOr(5000)
+				waited += 5000
+				w.wait()
+				w.stepExpiry(w.tr.NowUs())
+			}
+			if it == nil {
+				w.notFollowed++
+				w.tr.Emit("env", "script_miss", KV{"step": si, "do": st.Do, "who": st.I, "kind": st.Kind, "src": st.Src, "act": st.Act})
+				continue
+			}
+			now = w.tr.NowUs()
+			w.mu.Lock()
+			it.held = false
+			it.dueUs = now
+			switch st.Do {
+			case "fail":
+				it.fault = "fail:" + st.Cls
+			case "lose_ack":
+				it.fault = "lose_ack"
+			case "drop":
+				it.fault = "drop"
+			}
+			w.mu.Unlock()
+			if st.Do == "lose_ack" {
+				it.err = nats.ErrTimeout
+			}
+			w.release(it, now)
+			// after an apply the operation waits (held) for its respond step; after a fail likewise
+			w.mu.Lock()
+			if it.kind != "deliver" && it.phase == "post" && (st.Do == "apply" || st.Do == "fail") {
+				it.held = true
+			}
+			w.mu.Unlock()
+		default:
+			s := Step{Do: st.Do, I: st.I, Del: st.Del, Wait: st.Wait, Vod: st.Vod, Cls: st.Cls, Mode: "hang"}
+			w.exec(&s, now)
+		}
+	}
+	w.wait()
+	w.tr.Emit("env", "script_end", KV{"missed": w.notFollowed, "steps": len(w.sc.Script)})
+	// continue under the latency policy
+	w.strict = false
+	now := w.tr.NowUs()
+	w.mu.Lock()
+	for _, it := range w.items {
+		if it.held {
+			it.held = false
+			if it.kind == "deliver" {
+				it.dueUs = now + w.wlat()
+			} else {
+				it.dueUs = now + w.lat()
+			}
+		}
+	}
+	w.mu.Unlock()
+}
+
+
+func (w *World) gateHeld() bool {
+	w.mu.Lock()
+	defer w.mu.Unlock()
+	for _, in := range w.insts {
+		if in.gate != nil {
+			return true
+		}
+	}
+	return false
+}
+
+// runGateRelease sleeps (without synctest.Wait) until the next release_gate step is due and executes it.
+func (w *World) runGateRelease() {
+	w.beat.Add(1)
+	var next *prog
+	for _, p := range w.progs {
+		if p.idx < len(p.steps) && p.steps[p.idx].Do == "release_gate" && (next == nil || p.resumeUs < next.resumeUs) {
+			next = p
+		}
+	}
+	now := w.tr.NowUs()
+	if next == nil || next.resumeUs > w.sc.EndUs {
+		// nobody will release it: do it now
+		for _, id := range w.order {
+			w.exec(&Step{Do: "release_gate", I: id}, now)
+		}
+		return
+	}
+	if d := next.resumeUs - now; d > 0 {
+		time.Sleep(us(d))
+	}
+	st := next.steps[next.idx]
+	next.idx++
+	w.exec(&st, w.tr.NowUs())
 }
